@@ -503,7 +503,10 @@ func holdText(s string) *rp.Fail {
 }
 
 func props() []rp.Prop {
-	return []rp.Prop{rp.P[aCase]{Name: "addr", Checks: ev.Pick(60000, 6000000) / ev.Shards(), Gen: genCase, Check: check}}
+	return []rp.Prop{
+		rp.P[aCase]{Name: "addr", Checks: ev.Pick(60000, 6000000) / ev.Shards(), Gen: genCase, Check: check},
+		rp.P[addrPair]{Name: "colliding-pairs", Sweep: sweepAddrPairs, Check: checkAddrPair},
+	}
 }
 
 func TestC15(t *testing.T)    { rp.RunAll(t, props()...) }
